@@ -384,6 +384,12 @@ func finish(ld *Loaded, db *SpecDB, reports []*FuncReport, groups map[string]*ob
 		case bad.Status == "failed" && confirmed:
 			violations++
 			lines = append(lines, fmt.Sprintf("VIOLATION property=%s replay=%s", prop, replayPath))
+		case bad.Definite && (bad.Status == "failed" || bad.Status == "unknown"):
+			// the obligation is `false` on a satisfiable path: the code reaches a point the
+			// discipline forbids (e.g. touching a variable captured by a running goroutine)
+			violations++
+			p := writeReplayNote(prop, n, bad, "the program point is reachable and the discipline forbids reaching it")
+			lines = append(lines, fmt.Sprintf("VIOLATION property=%s replay=%s no-failing-input-found", prop, p))
 		case baseline[n] || movedFromBaseline(baseline, bad):
 			violations++
 			p := writeReplayNote(prop, n, bad, "obligation was discharged on the baseline tree and is not discharged now")
